@@ -38,13 +38,13 @@ def run(ctx):
                   model_only=lambda l: l.startswith("dump"))
     # pass 1: behaviour and shape only (compare-call counts stripped), so that a behavioural difference is reported
     # as such and not as the count difference that usually precedes it in the same history
-    ctx.diff(n={"quick": 400000, "thorough": 8000000}, canon=_strip_count, tagger=_tag,
+    ctx.diff(n={"quick": 400000, "thorough": 2000000}, canon=_strip_count, tagger=_tag,
              theorem="C06.inorder_run / remove_inorder / get_first / first_last / traverse_spec / traverseFrom_spec / "
                      "run_inv are theorems about the model RB.Tree; the implementation differs from the model on "
                      "this history",
              what="results and node shape/colours of redblack.Tree vs the Lean model (compare counts ignored)", **common)
     # pass 2: everything, including the number of calls made to the compare function per operation
-    ctx.diff(n={"quick": 1000000, "thorough": 40000000},
+    ctx.diff(n={"quick": 1000000, "thorough": 16000000},
              theorem="C06.compares_find / compares_insert / compares_remove bound the model's compare counts; the "
                      "implementation's count (or result) differs from the model on this history",
              what="results, compare-call counts and node shape/colours of redblack.Tree vs the Lean model", **common)
